@@ -76,6 +76,15 @@ func runC19(b *mon.B) {
 		}
 		// what goes on the wire: obfuscate `seen` with the server's key
 		wire := pktSpec{H: h, Clear: seen}.wire(serverKey)
+		if judgement == "must-flag" && caseNo%3 == 0 {
+			// the same segment carries a second mismatching packet (a client with the wrong key that
+			// pipelines): still one error packet and a close - and nothing of it may reach the next
+			// connection
+			h2 := h
+			h2.Session ^= 0x5a5a
+			wire = append(wire, pktSpec{H: h2, Clear: seen}.wire(serverKey)...)
+			b.Count("mismatches_with_a_second_packet_in_the_segment", 1)
+		}
 		written, stray, invs, st, err := srv.step(conn, wire)
 		if err != nil {
 			b.Inconclusive("case %d: %v", caseNo, err)
